@@ -128,6 +128,7 @@ Proof.
     cbn [rdnss_servers]. unfold server_keys, server_ok_b in *. cbn [forallb flat_map server_key].
     destruct v4; [reflexivity|]. cbn [orb].
     destruct (is_4in6 a) eqn:E4; [reflexivity|].
+    destruct (N.ltb 0 z) eqn:Ez; [reflexivity|].
     cbn [is_some app andb fresh_p existsb filter].
     replace (nonwild (a, z)) with (negb (skey_eqb wild_server (a, z))) by reflexivity. rewrite !wild_eqb_key.
     destruct (N.eqb a 0 && N.eqb z 0) eqn:Ew; cbn [negb].
